@@ -15,11 +15,13 @@ Exit 2 with `TRANSLATE-ERROR ...` when msgs.rs no longer has the expected shape.
 """
 import re, sys, os, json
 sys.path.insert(0, os.path.dirname(__file__))
-from rs2lean import strip_comments
+from rs2lean import strip_comments, parse_expr
+import rs2lean
 
 REPO = os.environ.get('VERIF_REPO', '/repo')
 MSGS = 'lightning/src/ln/msgs.rs'
 AUX = ['lightning/src/ln/msgs.rs', 'lightning/src/ln/onion_utils.rs']
+SER = 'lightning/src/util/ser.rs'
 
 
 class TranslateError(Exception):
@@ -51,6 +53,9 @@ LEAF = {
     'Vec<u8>': (('varBytes',), 'util/ser.rs impl Readable for Vec<u8> (CollectionLength prefix)'),
     'Vec<Signature>': (('vec', ('fixed', 64, 'sig')), 'util/ser.rs impl_for_vec!(ecdsa::Signature)'),
     # hand-written codecs (Model/MsgSchemasHand.lean)
+    'NodeFeatures': (('bytes16',), 'ln/features.rs impl_feature_len_prefixed_write!(NodeFeatures): u16 length, flag bytes kept as they are'),
+    'InitFeatures': (('bytes16',), 'ln/features.rs impl_feature_len_prefixed_write!(InitFeatures)'),
+    'NodeAlias': (('fixed', 32, 'any'), 'routing/gossip.rs impl Readable for NodeAlias ([u8; 32])'),
     'ChannelFeatures': (('bytes16',), 'ln/features.rs impl_feature_len_prefixed_write!(ChannelFeatures): u16 length, flag bytes kept as they are'),
     'NodeId': (('fixed', 33, 'any'), 'routing/gossip.rs impl Readable for NodeId: 33 raw bytes, not validated as a point'),
     'ChannelTypeFeatures': (('restBytes',), 'ln/features.rs impl_feature_tlv_write!(ChannelTypeFeatures): WithoutLength, read_to_end, bytes kept as they are'),
@@ -249,6 +254,10 @@ def lean_ty(t):
         return '(.pair %s %s)' % (lean_ty(t[1]), lean_ty(t[2]))
     if k == 'vec':
         return '(.vec %s)' % lean_ty(t[1])
+    if k == 'chunks':
+        return '(.chunks %d)' % t[1]
+    if k == 'sockAddr':
+        return '(.sockAddr sockAddrKinds)'
     raise TranslateError('bad ty %r' % (t,))
 
 
@@ -427,6 +436,445 @@ def check_fragments(ctx):
             raise TranslateError('impl %s changed (Model/MsgSchemasHand.lean mirrors the old text): now `%s`' % (key, got[:300]))
 
 
+# ---------------------------------------------------------------------------------------------------------------------
+# irregular hand-written codecs modelled by Model/MsgCustom.lean: SocketAddress, (Unsigned)NodeAnnouncement,
+# QueryShortChannelIds, ReplyChannelRange.  The *shape* of each reader / writer body is pinned by a skeleton (the
+# whitespace-normalised text with the arithmetic / comparison expressions cut out); the expressions themselves are
+# TRANSLATED into Lean definitions the model calls, so the model follows the source and the theorems of Props/C13 are
+# re-proved about what the source says now.
+
+def split_arms(s):
+    """split on top-level commas; only ( [ { nest (so that `=>` and `<T>` do not confuse the depth)"""
+    parts, d, cur = [], 0, ''
+    for c in s:
+        if c in '([{':
+            d += 1
+        elif c in ')]}':
+            d -= 1
+        if c == ',' and d == 0:
+            parts.append(cur)
+            cur = ''
+        else:
+            cur += c
+    if cur.strip():
+        parts.append(cur)
+    return [' '.join(p.split()) for p in parts if p.strip()]
+
+
+def rtext(a):
+    """Rust text of a name / field access / argument-less method call"""
+    if a[0] == 'var':
+        return a[1]
+    if a[0] == 'field':
+        return rtext(a[1]) + '.' + a[2]
+    if a[0] == 'method' and not a[3]:
+        return rtext(a[1]) + '.' + a[2] + '()'
+    if a[0] == 'cast':
+        return rtext(a[1])
+    return repr(a)
+
+
+def lean_expr(ast, env, what):
+    """rs2lean AST of a pure integer / boolean expression -> (Lean text, 'nat' | 'bool'); `env`: Rust name / `x.len()` text -> Lean
+    variable.  Only + - * / %, comparisons, || && !, integer literals, casts (dropped) and the names of `env` are accepted."""
+    k = ast[0]
+    if k == 'num':
+        return str(ast[1]), 'nat'
+    if k == 'cast':
+        return lean_expr(ast[1], env, what)
+    if k in ('var', 'method', 'field'):
+        key = rtext(ast)
+        for name, lean in env.items():
+            if key == name:
+                return lean, 'nat'
+        raise TranslateError('%s: unexpected operand %r in %r' % (what, key, rtext(ast)))
+    if k == 'un' and ast[1] == '!':
+        t, ty = lean_expr(ast[2], env, what)
+        if ty != 'bool':
+            raise TranslateError('%s: `!` on a non-boolean' % what)
+        return '(!%s)' % t, 'bool'
+    if k == 'bin':
+        op = ast[1]
+        (l, lt), (r, rt) = lean_expr(ast[2], env, what), lean_expr(ast[3], env, what)
+        if op in ('+', '-', '*', '/', '%') and lt == rt == 'nat':
+            return '(%s %s %s)' % (l, op, r), 'nat'
+        if op in ('<', '<=', '>', '>=', '==', '!=') and lt == rt == 'nat':
+            return 'decide (%s %s %s)' % (l, {'<=': '≤', '>=': '≥', '==': '=', '!=': '≠'}.get(op, op), r), 'bool'
+        if op in ('||', '&&') and lt == rt == 'bool':
+            return '(%s %s %s)' % (l, op, r), 'bool'
+    raise TranslateError('%s: cannot translate %r' % (what, rtext(ast)))
+
+
+def tr(expr, env, want, what):
+    try:
+        ast = parse_expr(expr)
+    except rs2lean.TranslateError as ex:
+        raise TranslateError('%s: cannot parse %r: %s' % (what, expr, ex))
+    t, ty = lean_expr(ast, env, what)
+    if ty != want:
+        raise TranslateError('%s: %r is a %s, expected a %s' % (what, expr, ty, want))
+    return t
+
+
+def norm_body(src, tr_name, ty_name):
+    body, line = impl_body(src, r'impl %s for %s\s*\{' % (tr_name, re.escape(ty_name)), 'impl %s for %s' % (tr_name, ty_name))
+    return ' '.join(body.split()), line
+
+
+def cut(text, pattern, what):
+    """text must match `pattern` (a regex with named groups) entirely; returns the groups"""
+    m = re.fullmatch(pattern, text, re.S)
+    if not m:
+        raise TranslateError('%s changed shape (Model/MsgCustom.lean mirrors the old one): now `%s`' % (what, text[:400]))
+    return m.groupdict()
+
+
+def esc(skel):
+    """skeleton with `«name»` holes -> regex"""
+    out, i = '', 0
+    for m in re.finditer(r'«(\w+)»', skel):
+        out += re.escape(skel[i:m.start()]) + '(?P<%s>[^;{}]+?)' % m.group(1)
+        i = m.end()
+    return out + re.escape(skel[i:])
+
+
+ADDR_PART = {'u16': '.u16', 'u8': '.u8', 'Hostname': '.hostname'}
+
+
+def addr_part(t, what):
+    t = ' '.join(t.split())
+    m = re.fullmatch(r'\[u8;\s*(\d+)\]', t)
+    if m:
+        return '(.bytes %d)' % int(m.group(1))
+    if t in ADDR_PART:
+        return ADDR_PART[t]
+    raise TranslateError('%s: no address-part model for Rust type `%s`' % (what, t))
+
+
+def socket_address(ctx):
+    """[(id, variant, [(field, part)], lenConst, lenHost)] from the enum, reader arms, writer arms, get_id and len"""
+    src = ctx.src[MSGS]
+    m = re.search(r'\bpub enum SocketAddress\s*\{', src)
+    if not m:
+        raise TranslateError('enum SocketAddress not found')
+    body = re.sub(r'#\[[^\]]*\]', '', src[m.end():match_close(src, m.end() - 1, '{', '}')])
+    variants = {}
+    for v in split_arms(body):
+        mm = re.fullmatch(r'(\w+)\s*\{(.*)\}', v, re.S)
+        mt = re.fullmatch(r'(\w+)\s*\((.*)\)', v, re.S)
+        if mm:
+            fs = []
+            for f in split_arms(mm.group(2)):
+                fm = re.fullmatch(r'(\w+)\s*:\s*(.+)', f)
+                if not fm:
+                    raise TranslateError('SocketAddress::%s: field %r' % (mm.group(1), f))
+                fs.append((fm.group(1), fm.group(2)))
+            variants[mm.group(1)] = ('struct', fs)
+        elif mt:
+            variants[mt.group(1)] = ('tuple', [('0', t) for t in split_arms(mt.group(2))])
+        else:
+            raise TranslateError('SocketAddress: variant %r' % v)
+    # reader
+    rbody, _ = norm_body(src, 'Readable', 'Result<SocketAddress, u8>')
+    g = cut(rbody, re.escape('fn read<R: Read>(reader: &mut R) -> Result<Result<SocketAddress, u8>, DecodeError> { let byte = <u8 as Readable>::read(reader)?; match byte {') + r'(?P<arms>.*)' + re.escape('} }'),
+            'impl Readable for Result<SocketAddress, u8>')
+    arms = split_arms(g['arms'])
+    if not arms or arms[-1] != '_ => return Ok(Err(byte))':
+        raise TranslateError('SocketAddress reader: last arm is %r' % (arms[-1:] or None))
+    kinds = []
+    for a in arms[:-1]:
+        am = re.fullmatch(r'(\d+) => Ok\(Ok\(SocketAddress::(\w+)\s*(?:\{(.*)\}|\((.*)\))\)\)', a)
+        if not am or am.group(2) not in variants:
+            raise TranslateError('SocketAddress reader: arm %r' % a)
+        tid, var = int(am.group(1)), am.group(2)
+        shape, decl = variants[var]
+        if am.group(3) is not None:
+            fields = []
+            for f in split_arms(am.group(3)):
+                fm = re.fullmatch(r'(\w+): Readable::read\(reader\)\?', f)
+                if not fm:
+                    raise TranslateError('SocketAddress reader: %s field %r' % (var, f))
+                fields.append(fm.group(1))
+            if shape != 'struct' or sorted(fields) != sorted(n for n, _ in decl):
+                raise TranslateError('SocketAddress reader: %s fills %s, enum declares %s' % (var, fields, decl))
+        else:
+            if shape != 'tuple' or split_arms(am.group(4)) != ['Readable::read(reader)?'] * len(decl):
+                raise TranslateError('SocketAddress reader: %s tuple arm %r' % (var, a))
+            fields = [n for n, _ in decl]
+        d = dict(decl)
+        kinds.append({'id': tid, 'name': var, 'fields': [(f, addr_part(d[f], 'SocketAddress::' + var)) for f in fields]})
+    if sorted(k['name'] for k in kinds) != sorted(variants):
+        raise TranslateError('SocketAddress reader covers %s, enum has %s' % ([k['name'] for k in kinds], sorted(variants)))
+    # writer: same type byte, same field order
+    wbody, _ = norm_body(src, 'Writeable', 'SocketAddress')
+    g = cut(wbody, re.escape('fn write<W: Writer>(&self, writer: &mut W) -> Result<(), io::Error> { match self {') + r'(?P<arms>.*)' + re.escape('} Ok(()) }'),
+            'impl Writeable for SocketAddress')
+    warms = split_arms(g['arms'])
+    byname = {k['name']: k for k in kinds}
+    seen = set()
+    for a in warms:
+        am = re.fullmatch(r'&SocketAddress::(\w+)\s*(?:\{(.*)\}|\((\w+)\)) => \{ (\d+)u8\.write\(writer\)\?;((?: \w+\.write\(writer\)\?;)*) \}', a)
+        if not am or am.group(1) not in byname:
+            raise TranslateError('SocketAddress writer: arm %r' % a)
+        k = byname[am.group(1)]
+        written = re.findall(r'(\w+)\.write\(writer\)\?;', am.group(5))
+        bound = [x.replace('ref ', '').strip() for x in am.group(2).split(',')] if am.group(2) is not None else [am.group(3)]
+        want = [f for f, _ in k['fields']] if am.group(2) is not None else bound
+        if int(am.group(4)) != k['id'] or written != want or sorted(bound) != sorted(want):
+            raise TranslateError('SocketAddress writer: %s writes type %s fields %s, reader has type %d fields %s' % (k['name'], am.group(4), written, k['id'], want))
+        seen.add(k['name'])
+    if seen != set(byname):
+        raise TranslateError('SocketAddress writer covers %s' % sorted(seen))
+    # get_id and len
+    im = re.search(r'\bimpl SocketAddress\s*\{', src)
+    ibody = src[im.end():match_close(src, im.end() - 1, '{', '}')]
+
+    def fn_arms(sig, what):
+        fm = re.search(re.escape(sig) + r'\s*\{\s*match self\s*\{', ibody)
+        if not fm:
+            raise TranslateError('SocketAddress::%s not found' % what)
+        o = ibody.rindex('{', 0, fm.end())
+        return split_arms(ibody[o + 1:match_close(ibody, o, '{', '}')])
+    for a in fn_arms('fn get_id(&self) -> u8', 'get_id'):
+        am = re.fullmatch(r'&SocketAddress::(\w+)\s*(?:\{ \.\. \}|\(_\)) => (\d+)', a)
+        if not am or am.group(1) not in byname or int(am.group(2)) != byname[am.group(1)]['id']:
+            raise TranslateError('SocketAddress::get_id arm %r disagrees with the reader' % a)
+    for a in fn_arms('fn len(&self) -> u16', 'len'):
+        am = re.fullmatch(r'&SocketAddress::(\w+)\s*(?:\{ \.\. \}|\(_\)) => (\d+)', a)
+        hm = re.fullmatch(r'&SocketAddress::(\w+)\s*\{ ref hostname, \.\. \} => u16::from\(hostname\.len\(\)\) \+ (\d+)', a)
+        if am and am.group(1) in byname:
+            byname[am.group(1)].update(lenConst=int(am.group(2)), lenHost=False)
+        elif hm and hm.group(1) in byname:
+            byname[hm.group(1)].update(lenConst=int(hm.group(2)), lenHost=True)
+        else:
+            raise TranslateError('SocketAddress::len arm %r' % a)
+    for k in kinds:
+        if 'lenConst' not in k:
+            raise TranslateError('SocketAddress::len has no arm for %s' % k['name'])
+    return kinds
+
+
+NODE_ANN_READ = ('fn read_from_fixed_length_buffer<R: LengthLimitedRead>(r: &mut R) -> Result<Self, DecodeError> { '
+    'let features: NodeFeatures = Readable::read(r)?; let timestamp: u32 = Readable::read(r)?; let node_id: NodeId = Readable::read(r)?; '
+    'let mut rgb = [0; 3]; r.read_exact(&mut rgb)?; let alias: NodeAlias = Readable::read(r)?; let addr_len: u16 = Readable::read(r)?; '
+    'let mut addresses: Vec<SocketAddress> = Vec::new(); let mut addr_readpos = 0; let mut excess = false; let mut excess_byte = 0; '
+    'loop { if «done» { break; } match Readable::read(r) { Ok(Ok(addr)) => { if «overrun» { return Err(DecodeError::BadLengthDescriptor); } '
+    'addr_readpos += «advance»; addresses.push(addr); }, Ok(Err(unknown_descriptor)) => { excess = true; excess_byte = unknown_descriptor; break; }, '
+    'Err(DecodeError::ShortRead) => return Err(DecodeError::BadLengthDescriptor), Err(e) => return Err(e), } } '
+    'let mut excess_data = vec![]; let excess_address_data = if «has_excess» { let mut excess_address_data = vec![0; «excess_len»]; '
+    'r.read_exact(&mut excess_address_data[if excess { 1 } else { 0 }..])?; if excess { excess_address_data[0] = excess_byte; } excess_address_data } '
+    'else { if excess { excess_data.push(excess_byte); } Vec::new() }; excess_data.extend(read_to_end(r)?.iter()); '
+    'Ok(UnsignedNodeAnnouncement { features, timestamp, node_id, rgb, alias, addresses, excess_address_data, excess_data, }) }')
+NODE_ANN_WRITE = ('fn write<W: Writer>(&self, w: &mut W) -> Result<(), io::Error> { self.features.write(w)?; self.timestamp.write(w)?; self.node_id.write(w)?; '
+    'w.write_all(&self.rgb)?; self.alias.write(w)?; let mut addr_len = 0; for addr in self.addresses.iter() { addr_len += «step»; } '
+    '(«total»).write(w)?; for addr in self.addresses.iter() { addr.write(w)?; } w.write_all(&self.excess_address_data[..])?; '
+    'w.write_all(&self.excess_data[..])?; Ok(()) }')
+# header of UnsignedNodeAnnouncement as the skeleton above fixes it: (field, Rust type); `rgb` is a `[0; 3]` buffer filled by read_exact
+NODE_ANN_HEADER = [('features', 'NodeFeatures'), ('timestamp', 'u32'), ('node_id', 'NodeId'), ('rgb', '[u8; 3]'), ('alias', 'NodeAlias')]
+
+SCID_READ_TAIL = ('let encoding_len: u16 = Readable::read(r)?; let encoding_type: u8 = Readable::read(r)?; '
+    'if encoding_type != EncodingType::«compression» as u8 { return Err(DecodeError::UnsupportedCompression); } '
+    'if «bad_len» { return Err(DecodeError::InvalidValue); } let short_channel_id_count: u16 = «count»; '
+    'let mut short_channel_ids = Vec::with_capacity(short_channel_id_count as usize); '
+    'for _ in 0..short_channel_id_count { short_channel_ids.push(Readable::read(r)?); } ')
+SCID_MSGS = {
+    'QueryShortChannelIds': {
+        'read': 'fn read_from_fixed_length_buffer<R: LengthLimitedRead>(r: &mut R) -> Result<Self, DecodeError> { let chain_hash: ChainHash = Readable::read(r)?; '
+                + SCID_READ_TAIL + 'Ok(QueryShortChannelIds { chain_hash, short_channel_ids }) }',
+        'write': 'fn write<W: Writer>(&self, w: &mut W) -> Result<(), io::Error> { let encoding_len: u16 = «enc_len»; self.chain_hash.write(w)?; encoding_len.write(w)?; '
+                 '(EncodingType::«wcompression» as u8).write(w)?; for scid in self.short_channel_ids.iter() { scid.write(w)?; } Ok(()) }',
+        'header': [('chain_hash', 'ChainHash')]},
+    'ReplyChannelRange': {
+        'read': 'fn read_from_fixed_length_buffer<R: LengthLimitedRead>(r: &mut R) -> Result<Self, DecodeError> { let chain_hash: ChainHash = Readable::read(r)?; '
+                'let first_blocknum: u32 = Readable::read(r)?; let number_of_blocks: u32 = Readable::read(r)?; let sync_complete: bool = Readable::read(r)?; '
+                + SCID_READ_TAIL + 'Ok(ReplyChannelRange { chain_hash, first_blocknum, number_of_blocks, sync_complete, short_channel_ids, }) }',
+        'write': 'fn write<W: Writer>(&self, w: &mut W) -> Result<(), io::Error> { let encoding_len: u16 = «enc_len»; self.chain_hash.write(w)?; self.first_blocknum.write(w)?; '
+                 'self.number_of_blocks.write(w)?; self.sync_complete.write(w)?; encoding_len.write(w)?; (EncodingType::«wcompression» as u8).write(w)?; '
+                 'for scid in self.short_channel_ids.iter() { scid.write(w)?; } Ok(()) }',
+        'header': [('chain_hash', 'ChainHash'), ('first_blocknum', 'u32'), ('number_of_blocks', 'u32'), ('sync_complete', 'bool')]},
+}
+
+# whitespace-normalised bodies mirrored literally by the model (no expressions to translate)
+CUSTOM_FRAGMENTS = {
+    (MSGS, 'Readable', 'SocketAddress'):
+        'fn read<R: Read>(reader: &mut R) -> Result<SocketAddress, DecodeError> { match Readable::read(reader) { Ok(Ok(res)) => Ok(res), Ok(Err(_)) => Err(DecodeError::UnknownVersion), Err(e) => Err(e), } }',
+    (MSGS, 'LengthReadable', 'NodeAnnouncement'):
+        'fn read_from_fixed_length_buffer<R: LengthLimitedRead>(r: &mut R) -> Result<Self, DecodeError> { Ok(Self { signature: Readable::read(r)?, contents: LengthReadable::read_from_fixed_length_buffer(r)?, }) }',
+    (MSGS, 'Writeable', 'NodeAnnouncement'):
+        'fn write<W: Writer>(&self, w: &mut W) -> Result<(), io::Error> { self.signature.write(w)?; self.contents.write(w)?; Ok(()) }',
+    (SER, 'Writeable', 'Hostname'):
+        '#[inline] fn write<W: Writer>(&self, w: &mut W) -> Result<(), io::Error> { self.len().write(w)?; w.write_all(self.as_bytes()) }',
+    (SER, 'Readable', 'Hostname'):
+        '#[inline] fn read<R: Read>(r: &mut R) -> Result<Hostname, DecodeError> { let len: u8 = Readable::read(r)?; let mut vec = Vec::with_capacity(len.into()); vec.resize(len.into(), 0); r.read_exact(&mut vec)?; Hostname::try_from(vec).map_err(|_| DecodeError::InvalidValue) }',
+    (SER, 'TryFrom<Vec<u8>>', 'Hostname'):
+        'type Error = (); fn try_from(bytes: Vec<u8>) -> Result<Self, Self::Error> { if let Ok(s) = String::from_utf8(bytes) { Hostname::try_from(s) } else { Err(()) } }',
+    (SER, 'TryFrom<String>', 'Hostname'):
+        'type Error = (); fn try_from(s: String) -> Result<Self, Self::Error> { if Hostname::str_is_valid_hostname(&s) { Ok(Hostname(s)) } else { Err(()) } }',
+    (SER, None, 'Hostname'):
+        'pub fn len(&self) -> u8 { (&self.0).len() as u8 } pub(crate) fn str_is_valid_hostname(s: &str) -> bool { s.len() <= 255 && s.chars().all(|c| c.is_ascii_alphanumeric() || c == \'.\' || c == \'_\' || c == \'-\') }',
+}
+
+
+# Init: reader / writer / feature-vector helpers mirrored literally by Model/MsgCustom.lean (decodeInit, encodeInit, orLE, first13LE);
+# the TLV list is extracted (init_layout)
+INIT_READ = ('fn read_from_fixed_length_buffer<R: LengthLimitedRead>(r: &mut R) -> Result<Self, DecodeError> { let global_features: InitFeatures = Readable::read(r)?; '
+    'let features: InitFeatures = Readable::read(r)?; let mut remote_network_address: Option<«t_addr»> = None; let mut networks: Option<«t_networks»> = None; '
+    'decode_tlv_stream!(r, { «rtlvs» }); Ok(Init { features: features | global_features, networks: networks.map(|n| n.0), remote_network_address, }) }')
+INIT_WRITE = ('fn write<W: Writer>(&self, w: &mut W) -> Result<(), io::Error> { write_features_up_to_13(w, self.features.le_flags())?; self.features.write(w)?; '
+    'encode_tlv_stream!(w, { «wtlvs» }); Ok(()) }')
+INIT_TLV_TYPES = {'SocketAddress': ('sockAddr',), 'WithoutLength<Vec<ChainHash>>': ('chunks', 32)}
+FN_FRAGMENTS = {
+    (MSGS, r'pub\(crate\) fn write_features_up_to_13'):
+        'pub(crate) fn write_features_up_to_13<W: Writer>( w: &mut W, le_flags: &[u8], ) -> Result<(), io::Error> { let len = core::cmp::min(2, le_flags.len()); (len as u16).write(w)?; for i in (0..len).rev() { if i == 0 { le_flags[i].write(w)?; } else { (le_flags[i] & 0b00_11_11_11).write(w)?; } } Ok(()) }',
+    ('lightning-types/src/features.rs', r'impl<T: sealed::Context, Rhs: Borrow<Self>> core::ops::BitOrAssign<Rhs> for Features<T>'):
+        'impl<T: sealed::Context, Rhs: Borrow<Self>> core::ops::BitOrAssign<Rhs> for Features<T> { fn bitor_assign(&mut self, rhs: Rhs) { let total_feature_len = cmp::max(self.flags.len(), rhs.borrow().flags.len()); self.flags.resize(total_feature_len, 0u8); for (byte, rhs_byte) in self.flags.iter_mut().zip(rhs.borrow().flags.iter()) { *byte |= *rhs_byte; } } }',
+    ('lightning-types/src/features.rs', r'impl<T: sealed::Context> core::ops::BitOr for Features<T>'):
+        'impl<T: sealed::Context> core::ops::BitOr for Features<T> { type Output = Self; fn bitor(mut self, o: Self) -> Self { self |= o; self } }',
+    ('lightning-types/src/features.rs', r'pub fn from_be_bytes'):
+        'pub fn from_be_bytes(mut flags: Vec<u8>) -> Features<T> { flags.reverse(); Self { flags: FeatureFlags::from(flags), mark: PhantomData } }',
+    ('lightning/src/ln/features.rs', r'macro_rules! impl_feature_len_prefixed_write'):
+        'macro_rules! impl_feature_len_prefixed_write { ($features: ident) => { impl Writeable for $features { fn write<W: Writer>(&self, w: &mut W) -> Result<(), io::Error> { let bytes = self.le_flags(); (bytes.len() as u16).write(w)?; write_be(w, bytes) } } impl Readable for $features { fn read<R: io::Read>(r: &mut R) -> Result<Self, DecodeError> { let len: u16 = Readable::read(r)?; let mut bytes = vec![0u8; len as usize]; r.read_exact(&mut bytes[..])?; Ok(Self::from_be_bytes(bytes)) } } }; }',
+    ('lightning/src/ln/features.rs', r'fn write_be'):
+        'fn write_be<W: Writer>(w: &mut W, le_flags: &[u8]) -> Result<(), io::Error> { for f in le_flags.iter().rev() { f.write(w)?; } Ok(()) }',
+}
+
+
+def check_fn_fragments(ctx):
+    cache = {}
+    for (path, start), want in FN_FRAGMENTS.items():
+        src = ctx.src[path] if path in ctx.src else cache.setdefault(path, read(path))
+        m = re.search(start, src)
+        if not m:
+            raise TranslateError('%s: `%s` not found' % (path, start))
+        o = src.index('{', m.end())
+        got = ' '.join(src[m.start():match_close(src, o, '{', '}') + 1].split())
+        if got != want:
+            raise TranslateError('%s: `%s…` changed (Model/MsgCustom.lean mirrors the old text): now `%s`' % (path, want[:50], got[:300]))
+
+
+def init_layout(ctx):
+    """TLVs of Init: [(type, field, FieldTy tuple)] — reader and writer must list the same types; payload types from the `let mut` declarations"""
+    src = ctx.src[MSGS]
+    rbody, rline = norm_body(src, 'LengthReadable', 'Init')
+    wbody, wline = norm_body(src, 'Writeable', 'Init')
+    def holes(skel):
+        out, i = '', 0
+        for m in re.finditer(r'«(\w+)»', skel):
+            out += re.escape(skel[i:m.start()]) + '(?P<%s>.+?)' % m.group(1)
+            i = m.end()
+        return out + re.escape(skel[i:])
+    g = cut(rbody, holes(INIT_READ), 'impl LengthReadable for Init')
+    gw = cut(wbody, holes(INIT_WRITE), 'impl Writeable for Init')
+    decl = {'remote_network_address': g['t_addr'].strip(), 'networks': g['t_networks'].strip()}
+    tl = []
+    for rec in split_arms(g['rtlvs']):
+        m = re.fullmatch(r'\((\d+), (\w+), option\)', rec)
+        if not m or m.group(2) not in decl or decl[m.group(2)] not in INIT_TLV_TYPES:
+            raise TranslateError('Init: TLV entry %r (declared types %s)' % (rec, decl))
+        tl.append((int(m.group(1)), m.group(2), INIT_TLV_TYPES[decl[m.group(2)]]))
+    wt = []
+    for rec in split_arms(gw['wtlvs']):
+        m = re.fullmatch(r'\((\d+), self\.(\w+)(\.as_ref\(\)\.map\(\|n\| WithoutLength\(n\)\))?, option\)', rec)
+        if not m:
+            raise TranslateError('Init: encode_tlv_stream! entry %r' % rec)
+        wt.append((int(m.group(1)), m.group(2), bool(m.group(3))))
+    if [(t, f) for t, f, _ in tl] != [(t, f) for t, f, _ in wt] or any(wl != (ty[0] == 'chunks') for (_, _, ty), (_, _, wl) in zip(tl, wt)):
+        raise TranslateError('Init: encode_tlv_stream! %s vs decode_tlv_stream! %s' % (wt, tl))
+    return tl, rline, wline
+
+
+def check_custom_fragments(ctx, ser):
+    for (path, trait, name), want in CUSTOM_FRAGMENTS.items():
+        src = ctx.src[MSGS] if path == MSGS else ser
+        hdr = r'impl %s for %s\s*\{' % (re.escape(trait), re.escape(name)) if trait else r'impl %s\s*\{' % re.escape(name)
+        body, _ = impl_body(src, hdr, 'impl %s for %s' % (trait, name))
+        got = ' '.join(body.split())
+        if got != want:
+            raise TranslateError('impl %s for %s (%s) changed (Model/Codec.lean / Model/MsgCustom.lean mirror the old text): now `%s`' % (trait, name, path, got[:300]))
+
+
+def custom_codecs(ctx):
+    """Lean text for the generated definitions used by Model/MsgCustom.lean"""
+    src = ctx.src[MSGS]
+    ser = read(SER)
+    check_custom_fragments(ctx, ser)
+    L = []
+    kinds = socket_address(ctx)
+    L.append('/-- `enum SocketAddress` (ln/msgs.rs): type byte, variant, fields in reader order (= writer order = get_id), and the arm of')
+    L.append('    `SocketAddress::len` (constant, adds `hostname.len()`) — extracted on this run -/')
+    L.append('def sockAddrKinds : List AddrKind := [')
+    L.append(',\n'.join('  ⟨%d, "%s", [%s], %d, %s⟩ /- %s -/' % (k['id'], k['name'], ', '.join(p for _, p in k['fields']), k['lenConst'],
+                                                               'true' if k['lenHost'] else 'false', ', '.join(f for f, _ in k['fields'])) for k in kinds) + ']')
+    L.append('')
+    # UnsignedNodeAnnouncement
+    rbody, rline = norm_body(src, 'LengthReadable', 'UnsignedNodeAnnouncement')
+    g = cut(rbody, esc(NODE_ANN_READ), 'impl LengthReadable for UnsignedNodeAnnouncement')
+    env = {'addr_len': 'addr_len', 'addr_readpos': 'addr_readpos', 'addr.len()': 'alen'}
+    what = 'UnsignedNodeAnnouncement reader'
+    L.append('/-! `impl LengthReadable for UnsignedNodeAnnouncement` (msgs.rs line %d): the expressions of the address loop, translated.' % rline)
+    L.append('    `addr_len` = the declared u16 length, `addr_readpos` = bytes accounted for so far, `alen` = `addr.len()` of the descriptor just read -/')
+    L.append('/-- loop head: `if %s { break; }` -/' % g['done'].strip())
+    L.append('def nodeAnnDone (addr_len addr_readpos : Nat) : Bool := %s' % tr(g['done'], env, 'bool', what))
+    L.append('/-- after a descriptor was read: `if %s { return Err(BadLengthDescriptor) }` -/' % g['overrun'].strip())
+    L.append('def nodeAnnOverrun (addr_len addr_readpos alen : Nat) : Bool := %s' % tr(g['overrun'], env, 'bool', what))
+    L.append('/-- `addr_readpos += %s` -/' % g['advance'].strip())
+    L.append('def nodeAnnAdvance (addr_readpos alen : Nat) : Nat := addr_readpos + %s' % tr(g['advance'], env, 'nat', what))
+    L.append('/-- after the loop: `if %s { … excess_address_data … }` -/' % g['has_excess'].strip())
+    L.append('def nodeAnnHasExcess (addr_len addr_readpos : Nat) : Bool := %s' % tr(g['has_excess'], env, 'bool', what))
+    L.append('/-- `vec![0; %s]` -/' % g['excess_len'].strip())
+    L.append('def nodeAnnExcessLen (addr_len addr_readpos : Nat) : Nat := %s' % tr(g['excess_len'], env, 'nat', what))
+    wbody, wline = norm_body(src, 'Writeable', 'UnsignedNodeAnnouncement')
+    g = cut(wbody, esc(NODE_ANN_WRITE), 'impl Writeable for UnsignedNodeAnnouncement')
+    what = 'UnsignedNodeAnnouncement writer'
+    L.append('/-- `impl Writeable for UnsignedNodeAnnouncement` (msgs.rs line %d): `addr_len += %s` per address -/' % (wline, g['step'].strip()))
+    L.append('def nodeAnnWriteStep (addr_len alen : Nat) : Nat := addr_len + %s' % tr(g['step'], {'addr.len()': 'alen'}, 'nat', what))
+    L.append('/-- the declared length: `(%s).write(w)` -/' % g['total'].strip())
+    L.append('def nodeAnnWriteTotal (addr_len excess_len : Nat) : Nat := %s' % tr(g['total'], {'addr_len': 'addr_len', 'self.excess_address_data.len()': 'excess_len'}, 'nat', what))
+    L.append('/-- header of UnsignedNodeAnnouncement: the fields read before `addr_len` (names, types) -/')
+    L.append('def nodeAnnHeaderPinned : List (String × FieldTy) := [%s]' % ', '.join('("%s", %s)' % (f, lean_ty(ctx.ty(t))) for f, t in NODE_ANN_HEADER))
+    L.append('')
+    # encoded short_channel_id lists
+    em = re.search(r'\benum EncodingType\s*\{([^}]*)\}', src)
+    if not em:
+        raise TranslateError('enum EncodingType not found')
+    enc = {}
+    for v in split_arms(em.group(1)):
+        vm = re.fullmatch(r'(\w+)\s*=\s*(0x[0-9a-fA-F]+|\d+)', v)
+        if not vm:
+            raise TranslateError('EncodingType variant %r' % v)
+        enc[vm.group(1)] = int(vm.group(2), 0)
+    for name, spec in SCID_MSGS.items():
+        rbody, rline = norm_body(src, 'LengthReadable', name)
+        g = cut(rbody, esc(spec['read']), 'impl LengthReadable for ' + name)
+        wbody, wline = norm_body(src, 'Writeable', name)
+        gw = cut(wbody, esc(spec['write']), 'impl Writeable for ' + name)
+        for c in (g['compression'], gw['wcompression']):
+            if c not in enc:
+                raise TranslateError('%s: EncodingType::%s is not a variant' % (name, c))
+        env = {'encoding_len': 'encoding_len'}
+        p = name[0].lower() + name[1:]
+        L.append('/-! `impl LengthReadable for %s` (msgs.rs line %d) / `impl Writeable` (line %d) -/' % (name, rline, wline))
+        L.append('/-- `if %s { return Err(InvalidValue) }` -/' % g['bad_len'].strip())
+        L.append('def %sBadLen (encoding_len : Nat) : Bool := %s' % (p, tr(g['bad_len'], env, 'bool', name + ' reader')))
+        L.append('/-- `short_channel_id_count = %s` -/' % g['count'].strip())
+        L.append('def %sCount (encoding_len : Nat) : Nat := %s' % (p, tr(g['count'], env, 'nat', name + ' reader')))
+        L.append('/-- writer: `encoding_len = %s` -/' % gw['enc_len'].strip())
+        L.append('def %sEncLen (n : Nat) : Nat := %s' % (p, tr(gw['enc_len'], {'self.short_channel_ids.len()': 'n'}, 'nat', name + ' writer')))
+        L.append('def %sRules : ScidRules := ⟨%sBadLen, %sCount, %sEncLen, %d, %d⟩   -- …, EncodingType::%s accepted, EncodingType::%s written' % (p, p, p, p, enc[g['compression']], enc[gw['wcompression']], g['compression'], gw['wcompression']))
+        L.append('def %sHeaderPinned : List (String × FieldTy) := [%s]' % (p, ', '.join('("%s", %s)' % (f, lean_ty(ctx.ty(t))) for f, t in spec['header'])))
+        L.append('')
+    check_fn_fragments(ctx)
+    tl, rline, wline = init_layout(ctx)
+    L.append('/-- `impl LengthReadable for Init` (msgs.rs line %d) / `impl Writeable for Init` (line %d): two feature vectors, then the TLVs' % (rline, wline))
+    L.append('    extracted from decode_tlv_stream! / encode_tlv_stream! with the payload types of their `let mut` declarations -/')
+    L.append('def initPinned : HandLayout := ⟨"Init", ["global_features", "features"], [%s, %s], [%s], false, none⟩' % (
+        lean_ty(ctx.ty('InitFeatures')), lean_ty(ctx.ty('InitFeatures')), ', '.join('(%d, %s)' % (t, lean_ty(ty)) for t, _, ty in tl)))
+    L.append('def initTlvNamesPinned : List String := [%s]' % ', '.join('"%s"' % f for _, f, _ in tl))
+    L.append('')
+    return L, kinds
+
+
+
 HAND_LET = ['OpenChannel', 'AcceptChannel', 'OpenChannelV2', 'AcceptChannelV2']
 HAND_STRUCT = ['UnsignedChannelAnnouncement', 'ChannelAnnouncement', 'UnsignedChannelUpdate', 'ChannelUpdate']
 
@@ -515,6 +963,8 @@ def main(out_path):
         h['name'], ', '.join('"%s"' % f for f, _, _ in h['fixed']), ', '.join(lean_ty(t) for _, t, _ in h['fixed']), ', '.join('(%d, %s)' % (typ, lean_ty(t)) for typ, _, t, _ in h['tlvs']),
         'true' if h['tail'] else 'false', 'none' if h.get('post') is None else 'some %d' % h['post'], h['line'], h['wline']) for h in hand) + ']')
     L.append('')
+    custom_lines, kinds = custom_codecs(ctx)
+    L += custom_lines
     L.append('end Ldk.Codec.Gen')
     text = '\n'.join(L) + '\n'
     old = open(out_path).read() if os.path.exists(out_path) else None
